@@ -160,6 +160,29 @@ theorem cmp_antisymm (a b : List Nat) : cmpBytes a b = .lt ↔ cmpBytes b a = .g
         · simp [h1, h2]
         · simp [h1, h2, ih]
 
+/-! ### `Display` agrees with `str` (`fmtPad` is `Formatter::pad` on the bytes; the driver compares it with
+the real `format!` output for every alignment / fill / width / precision) -/
+
+/-- whatever width, precision, alignment and (ASCII) fill are asked for, what `Display` writes is valid
+UTF-8: truncation to `precision` chars never cuts a char -/
+theorem display_valid (bs : List Nat) (h : Wf bs) (w p : Option Nat) (a : Align) (f : Nat) (hf : f ≤ 0x7F) :
+    Wf (fmtPad bs w p a f) := fmtPad_wf h w p a f hf
+
+/-- `{}` writes the string itself -/
+theorem display_plain (bs : List Nat) (a : Align) (f : Nat) : fmtPad bs none none a f = bs := fmtPad_plain bs a f
+
+/-- a precision truncates to a prefix of whole chars … -/
+theorem display_precision_is_prefix (bs : List Nat) (h : Wf bs) (p : Nat) :
+    Wf (takeChars p bs) ∧ ∃ r, bs = takeChars p bs ++ r := takeChars_wf h p
+
+/-- … and does nothing when the string has at most that many chars -/
+theorem display_precision_noop (bs : List Nat) (p : Nat) (h : charCount bs ≤ p) : takeChars p bs = bs :=
+  takeChars_all bs p h
+
+-- "aéb": `{:.2}` keeps "aé" (3 bytes), `{:*^6}` centres with one `*` before and two after
+example : fmtPad [0x61, 0xC3, 0xA9, 0x62] none (some 2) .left 0x20 = [0x61, 0xC3, 0xA9] ∧
+    fmtPad [0x61, 0xC3, 0xA9, 0x62] (some 6) none .center 0x2A = [0x2A, 0x61, 0xC3, 0xA9, 0x62, 0x2A, 0x2A] := by decide
+
 /-! ### Non-vacuity: concrete non-trivial instances of the hypotheses -/
 
 -- "aé€😀" is valid, and 1 is a boundary while 2 (inside é) is not
